@@ -158,11 +158,41 @@ def parity(repo: Repo, chk: Check) -> None:
             if side:
                 conds = [ast.unparse(a) for c in s.node.value.generators[0].ifs for a in norm.atoms(c, True)]
                 defs[side] = (t.id, conds, s)
+    uvs: dict[str, str] = {}
+    aliases: dict[str, set[str]] = {}
+    for side, (name, conds, s) in defs.items():
+        gen = s.node.value.generators[0]
+        uvs[side] = gen.target.id if isinstance(gen.target, ast.Name) else "?"
+    if set(defs) != {"ins", "outs"}:
+        # the lists filled use by use: `for use in buffer.uses: <conditions>; readers.append(use)` - in place, in a local function or in a new helper
+        # (walked by the analysis; a flag parameter is folded into the side it selects)
+        defs, uvs = {}, {}
+        for a in fl.calls("append"):
+            if not a.reachable or not a.node.args or not isinstance(a.node.func, ast.Attribute):
+                continue
+            lp = [l for l in a.loops if isinstance(l, ast.For) and isinstance(l.target, ast.Name) and norm.match(T("$b.uses"), norm.primary(a.expand(l.iter))) is not None]
+            if not lp or ast.unparse(norm.primary(a.expand(a.node.args[0]))) != lp[-1].target.id:
+                continue
+            uv = lp[-1].target.id
+            head = next((x for x in fl.stmts(ast.For) if x.node is lp[-1]), None)
+            base = set(head.fact_texts) if head is not None else set()
+            conds = [t for t in a.fact_texts if t not in base and uv in t]
+            side = "ins" if any(norm.any_match([f"$b in {uv}.operation.ins"], fa.expr) is not None for fa in a.facts if fa.kind == "atom") else \
+                "outs" if any(norm.any_match([f"$b in {uv}.operation.outs"], fa.expr) is not None for fa in a.facts if fa.kind == "atom") else None
+            if side is None or side in defs:
+                continue
+            # the name the list is known by where its length is tested: the list itself, or what a walked helper's result was assigned to
+            lname = ast.unparse(a.node.func.value)
+            for nm, ds in fl.alldefs.items():
+                if any(isinstance(norm.primary(d_), ast.Name) and norm.primary(d_).id == lname for d_ in ds) and not nm.startswith("__"):
+                    lname = nm
+            defs[side] = (lname, conds, a)
+            uvs[side] = uv
+            aliases[side] = {lname, ast.unparse(a.node.func.value)}
     if set(defs) != {"ins", "outs"}:
         raise AnalysisError(f"{f.where}: reader/writer use lists not found")
     for side, (name, conds, s) in defs.items():
-        gen = s.node.value.generators[0]
-        uv = gen.target.id if isinstance(gen.target, ast.Name) else "?"
+        uv = uvs[side]
         ok = any(f"isinstance({uv}.operation, StageOp)" in c or f"isinstance({uv}.operation, pipeline.StageOp)" in c for c in conds) and any("parent_op() is" in c for c in conds) and len(conds) == 3
         chk.result(ok, "C15.parity", f"{f.key}:{side}-uses", s.where(), f"{'readers' if side == 'ins' else 'writers'} = stages of this pipeline with the buffer in {side}",
                    f"the {'reader' if side == 'ins' else 'writer'} list is filtered by {conds}")
@@ -187,7 +217,8 @@ def parity(repo: Repo, chk: Check) -> None:
                     if fact.kind != "atom":
                         continue
                     m_ = norm.match(T("len($x) == 1"), fact.expr)
-                    if m_ is not None and (ast.unparse(m_["x"]) == defs[side][0] or depends_on(m_["x"], f"$b in $u.operation.{side}")):
+                    if m_ is not None and (ast.unparse(m_["x"]) == defs[side][0] or depends_on(m_["x"], f"$b in $u.operation.{side}") or (
+                            norm.free_names(m_["x"]) & aliases.get(side, set()))):
                         return True
                 return False
             return t_
